@@ -279,7 +279,11 @@ pub fn reflink(infd: &File, outfd: &File) -> Result<bool> {
             Some(libc::EOPNOTSUPP)
                 | Some(libc::EINVAL)
                 | Some(libc::EXDEV)
-                | Some(libc::ETXTBSY) =>
+                | Some(libc::ETXTBSY)
+                // No such request at all: filesystems without it on
+                // kernels before 4.5, or a filter in front of us.
+                | Some(libc::ENOTTY)
+                | Some(libc::ENOSYS) =>
                 return Ok(false),
             _ =>
                 return  Err(oserr.into()),
